@@ -603,6 +603,16 @@ func c17Corpus(r *fw.Rec, s corpus.Source) {
 		r.Violate(fw.Violation{Key: "corpus-printed-" + key + "/" + s.ID, Input: text, What: "in the printed module, " + what, Observed: y})
 		return
 	}
+	// print and parse back: the metadata graph must be the same (distinct flags,
+	// fields, sharing), judged on the structural serialisation of both modules
+	if m2, e2, p2 := parseGuard(s.ID, y); p2 == "" && e2 == nil {
+		m2.String()
+		if sa, sb := graph.Serialize(m, graph.Options{}), graph.Serialize(m2, graph.Options{}); sa != sb {
+			r.Violate(fw.Violation{Key: "corpus-reparse-structure/" + s.ID, Input: text, What: "the printed module parses back to another graph: " + graph.FirstDiff(sa, sb), Observed: y})
+			return
+		}
+		r.Tally("corpus", "reparsed-structurally-identical")
+	}
 	seen := map[string]bool{}
 	for _, line := range strings.Split(y, "\n") {
 		if len(line) > 1 && line[0] == '!' && line[1] >= '0' && line[1] <= '9' {
